@@ -192,6 +192,7 @@ impl<'a> Ctx<'a> {
                 crate::env::Env::AfterThenUnwinding(_) => "fault:env-after-refused-operation-while-unwinding",
                 crate::env::Env::AfterMany { .. } => "fault:env-after-many-repetitions-of-one-operation",
                 crate::env::Env::AfterIdle { .. } => "fault:env-clock-jump-after-warm-up",
+                crate::env::Env::Inside { .. } => "fault:env-inside-a-seam-call-of-another-library-call",
             });
             Some(e)
         } else {
